@@ -234,4 +234,7 @@ def check(ctx, rep):
     from .c10 import rule_no_changeset_on_failure
 
     rule_no_changeset_on_failure(ctx, rep)
+    from .c10 import rule_accumulate_all
+
+    rule_accumulate_all(ctx, rep)
     rep.not_covered += ["JSON-schema validity of pydantic's serialisation", "line numbers lying inside the file", "non-ASCII content"]
